@@ -1,0 +1,59 @@
+//go:build verif
+
+// Scheduler yield points for the deterministic simulator (build tag "verif").
+// The simulator runs real goroutines one at a time; it regains control wherever
+// one of these hooks is called. With the tag off they are empty functions.
+
+package table
+
+import "sync"
+
+// VerifYield, when set, is called at every yield point with a tag naming it.
+var VerifYield func(tag string)
+
+func verifYield(tag string) {
+	if VerifYield != nil {
+		VerifYield(tag)
+	}
+}
+
+// verifBeforeWLock parks the calling task (reporting "blocked:<tag>") until the
+// lock that is about to be taken is free, so that a simulated task never blocks
+// inside the real mutex while every other task is parked.
+func verifBeforeWLock(mu *sync.RWMutex, tag string) {
+	if VerifYield == nil {
+		return
+	}
+	VerifYield(tag)
+	for !mu.TryLock() {
+		VerifYield("blocked:" + tag)
+	}
+	mu.Unlock()
+}
+
+func verifBeforeRLock(mu *sync.RWMutex, tag string) {
+	if VerifYield == nil {
+		return
+	}
+	VerifYield(tag)
+	for !mu.TryRLock() {
+		VerifYield("blocked:" + tag)
+	}
+	mu.RUnlock()
+}
+
+func verifBeforeMLock(mu *sync.Mutex, tag string) {
+	if VerifYield == nil {
+		return
+	}
+	VerifYield(tag)
+	for !mu.TryLock() {
+		VerifYield("blocked:" + tag)
+	}
+	mu.Unlock()
+}
+
+// VerifYieldPoint lets other packages of the forwarder mark a yield point.
+func VerifYieldPoint(tag string) {
+	verifYield(tag)
+}
